@@ -161,7 +161,18 @@ func propC19(c *Ctx, r *Report) {
 				le = loopOver(t.Root, "pegnet.Hardforks", 1)
 			}
 			refused := false
-			for _, x := range le.Returns {
+			exits := le.Returns
+			if !le.Found {
+				// the fork loop was moved into a helper: what CheckHardForks itself returns in this scenario (the other
+				// refusals are switched off by the scenario)
+				exits = errorReturns(t.Root)
+				for i, x := range exits {
+					if x != "nil" {
+						exits[i] = "err:fresh" // a helper's merged result: some error, where every other cell of the table gives nil only
+					}
+				}
+			}
+			for _, x := range exits {
 				if x == "err:fresh" {
 					refused = true
 				}
